@@ -158,7 +158,7 @@ def mutants():
                 meta = json.load(open(mp))
                 out.append({"id": "seeded-" + name, "prop": meta["property"], "kind": "seeded", "patch": pp,
                             "what": meta.get("summary", ""), "base_commit": meta.get("base_commit"),
-                            "checks": meta.get("checks")})
+                            "checks": meta.get("checks"), "apply_to_base": meta.get("apply_to_base")})
     return out
 
 
@@ -184,7 +184,7 @@ def main():
                     if err:
                         break
             else:
-                err = apply_patch(d, open(m["patch"]).read())
+                err = "evaluated on its base commit" if m.get("apply_to_base") else apply_patch(d, open(m["patch"]).read())
                 if err and m.get("base_commit"):
                     # the tree moved on (a later fix rewrote the lines the patch touches): fall back to
                     # the commit the change was written against
